@@ -270,7 +270,9 @@ def _obligations(tier, seed):
                 for api in apis:
                     nm = f"{ename}/N{N}/{'LP' if lp else 'lp'}{'LR' if lr else 'lr'}{'D' if sd else 'd'}/{api}"
                     obs.append((nm, ob_engine(ename, spec, N, lp, lr, sd, api, nm)))
-        if ename in ("takagi-sugeno", "mamdani-centroid", "function-input") or tier != "quick":
+        # (not for range-locked INPUT variables: they store a clipped copy of the array they are given, so refilling the caller's array
+        #  does not - and must not - reach the engine)
+        if (ename in ("takagi-sugeno", "mamdani-centroid", "function-input") or tier != "quick") and not any(iv.get("lock_range") for iv in spec["inputs"]):
             for lp in (False, True):
                 nm = f"{ename}/N2/{'LP' if lp else 'lp'}lrd/arrays-refilled-in-place"
                 obs.append((nm, ob_engine(ename, spec, 2, lp, False, False, "arrays", nm, refill=True)))
